@@ -188,8 +188,33 @@ class Scheduler:
     return self.results, self.errors
 
 
+class _ThreadingShim:
+  """Stands in for the `threading` module inside the module under test: locks created at run time
+  (per-key locks and the like) are cooperative too; everything else is the real thing."""
+
+  def __init__(self, sched):
+    self._sched = sched
+    self._n = 0
+
+  def _make(self, reentrant):
+    self._n += 1
+    return CoopLock(self._sched, reentrant, f'dynamic-lock-{self._n}')
+
+  def Lock(self):  # pylint: disable=invalid-name
+    return self._make(False)
+
+  def RLock(self):  # pylint: disable=invalid-name
+    return self._make(True)
+
+  def __getattr__(self, name):
+    return getattr(threading, name)
+
+
 def install_coop_locks(module, sched):
   """Replaces module-level threading locks of `module` by cooperative ones. Returns their names."""
+  if getattr(module, 'threading', None) is threading or isinstance(
+      getattr(module, 'threading', None), _ThreadingShim):
+    module.threading = _ThreadingShim(sched)
   names = []
   for name, value in list(vars(module).items()):
     if isinstance(value, _LOCK_TYPES):
